@@ -190,6 +190,7 @@ func Run(p *Prop, seed uint64, tier, dir, replayOps string) error {
 	for i, c := range cases {
 		line := c.Line(i)
 		fmt.Fprintln(wo, line)
+		wo.Flush() // a crash of the whole process (panic in a library goroutine) leaves the culprit as last line
 		res := SafeExec(func() string { return p.Exec(c) })
 		fmt.Fprintf(wi, "%d %s\n", i, res)
 		st.Ops[c.Op]++
